@@ -21,6 +21,7 @@ class Gen:
         self.labels = 0
         self.pool = pool or []          # addresses of callee contracts
         self.used = set()
+        self.self_guard = False         # the program must return at once when called with empty calldata
 
     def lab(self):
         self.labels += 1
@@ -195,6 +196,14 @@ class Gen:
     def cond(self):
         r = self.r
         c = r.random()
+        if "sha3" in self.f and c < 0.25:
+            # the overflow check solc emits for a dynamic array element: keccak(slot) + index (+ c) < keccak(slot)
+            slot = r.choice([0, 1, 2])
+            h = [("push", slot), "PUSH0", "MSTORE", ("push", 32), "PUSH0", "SHA3"]
+            idx = self.arg() + ([("push", r.choice([1, 5, 32])), "ADD"] if r.random() < 0.6 else [])
+            if r.random() < 0.5:
+                idx = [("push", r.choice([1, 2, 8]))] + idx + ["ADD"]
+            return h + h + idx + ["ADD", r.choice(["LT", "GT"])]
         if c < 0.6:
             return self.expr(1) + self.expr(1) + [r.choice(["LT", "GT", "SLT", "SGT", "EQ"])]
         if c < 0.8:
@@ -238,13 +247,16 @@ class Gen:
         to = r.choice(self.pool)
         pre = self.expr(1) + [("push", 0), "MSTORE"]          # argument word at mem[0]
         value = [("push", r.choice([0, 0, 1, 1000]))] if r.random() < 0.7 else self.expr(0)
-        ret_size, ret_off = r.choice([0, 32, 64]), r.choice([64, 96])
+        ret_size, ret_off = r.choice([0, 32, 64, 64, 96]), r.choice([64, 96])
+        if r.random() < 0.5:
+            # the output window is not fresh memory: what the callee does not overwrite must survive
+            pre += self.expr(0) + [("push", ret_off + r.choice([0, 32, 33, 64])), "MSTORE"]
         items = pre + [("push", ret_size), ("push", ret_off), ("push", r.choice([0, 32, 36])), ("push", 0)]
         if kind in ("CALL", "CALLCODE"):
             items += value
         items += [("push", to), "GAS" if False else ("push", 100000), kind]
         # store the success flag so that it is observable
-        items += [("push", 128), "MSTORE"]
+        items += [("push", 224), "MSTORE"]
         if r.random() < 0.4:
             if r.random() < 0.5:
                 # (size, source offset): inside, exactly at the end, zero-size at / past the end, past the end
@@ -338,6 +350,13 @@ class Gen:
         r = self.r
         kind = r.choice(["CALL", "CALL", "CALL", "CALLCODE"])
         to = r.choice(self.pool + [0xC0FFEE])
+        if r.random() < 0.25:
+            # pay oneself: the executing account calls itself with empty calldata (the program starts with
+            # `if calldatasize == 0: stop`), balances must be unchanged whatever the order of the updates
+            self.self_guard = True
+            value = [("push", r.choice([1, 7, 1000]))] if r.random() < 0.6 else self.arg()
+            return ([("push", 0), ("push", 0), ("push", 0), ("push", 0)] + value + ["ADDRESS", ("push", 100000), kind, ("push", 128), "MSTORE",
+                    "SELFBALANCE", ("push", 160), "MSTORE"])
         c = r.random()
         if c < 0.3:
             value = [("push", r.choice([1, 2, 1000, 10 ** 18]))]
@@ -404,12 +423,16 @@ class Gen:
         items = []
         for _ in range(nstmts):
             items += self.stmt(depth)
+        if self.self_guard:
+            g = self.lab()
+            items = ["CALLDATASIZE", ("ref", g), "JUMPI", "STOP", ("label", g)] + items
         if "symjump" in self.f:
             return items + self.symjump_tail()
         if epilogue:
             c = self.r.random()
             if c < 0.75:
-                items += [("push", self.r.choice([32, 64, 96, 224])), "PUSH0", "RETURN"]
+                sizes = [96, 224, 256, 256] if "call" in self.f else [32, 64, 96, 224]
+                items += [("push", self.r.choice(sizes)), "PUSH0", "RETURN"]
             elif c < 0.85:
                 items += ["STOP"]
             elif c < 0.95:
